@@ -3,7 +3,7 @@
 P = {'id': 'C01',
  'level': 'proof',
  'coq_deps': ['C02'],
- 'theorems': ['rans_step_inverse', 'rans_no_overflow', 'rans_roundtrip', 'parallel_roundtrip', 'normalize_wf', 'normalize_defined', 'table_of_counts_wf', 'rans_encode_refuses', 'rans_encode_defined', 'lz_parse_decodes', 'lz_sound_chooser_roundtrip', 'lz_decode_encode'],
+ 'theorems': ['rans_step_inverse', 'rans_no_overflow', 'rans_roundtrip', 'parallel_roundtrip', 'normalize_wf', 'normalize_defined', 'table_of_counts_wf', 'rans_encode_refuses', 'rans_encode_defined', 'lz_parse_decodes', 'lz_sound_chooser_roundtrip', 'lz_decode_encode', 'alverson_exact', 'fse_mul_hi_old_refuted', 'fse_core_roundtrip', 'fse_encode_refuses', 'fse_encode_defined', 'fse_single_roundtrip', 'fse_roundtrip'],
  'trusted': [],
  'assumptions': [],
  'level_text': 'under construction',
